@@ -432,6 +432,17 @@ def pinned(ctx, vh):
         judge_import_ws(ctx, vh, db, ws, model, ws.root)
         vh.call(op="drop_db", db=db)
         shutil.rmtree(ws.root, ignore_errors=True)
+    # regression witness (defect repaired by a fix: commit): memoised partial import walks in an import cycle
+    import json as _json
+    reg = _json.load(open(os.path.join(os.path.dirname(os.path.dirname(__file__)), "regress_c14_cycle.json")))
+    ws = ws_from_witness(ctx, {"files": reg["files"], "spec": {}}, name="regress")
+    model = ws.model()
+    db = vh.new_db()
+    vh.call(op="scan", db=db, root=ws.root)
+    ws.spec = {"mods": [], "entries": [], "names": [], "depth": 3, "regression": "import-cycle-memo"}
+    judge_import_ws(ctx, vh, db, ws, model, ws.root)
+    vh.call(op="drop_db", db=db)
+    shutil.rmtree(ws.root, ignore_errors=True)
     # the explicit-import-in-plugin finding: first layout of a fixed seed sequence that contains the construct
     for seed in range(400):
         rng = random.Random(seed)
